@@ -271,7 +271,19 @@ func (b *Browser) Do(r Req) *Exchange {
 		buf.Write(r.Body)
 	}
 	b.w.Log.Begin(ex)
-	defer b.w.Log.End(ex)
+	arr0 := b.w.Up.Count()
+	defer func() {
+		b.w.Log.End(ex)
+		for _, c := range b.w.Log.Since(ex.Seq+1, "") {
+			if c.Link == L2 || c.Link == L3 {
+				ex.Children = append(ex.Children, c)
+			}
+		}
+		ex.Arrivals = b.w.Up.Since(arr0)
+		if b.w.OnExchange != nil {
+			b.w.OnExchange(ex)
+		}
+	}()
 	conn, err := b.w.Net.Dial("browser", u.Host)
 	if err != nil {
 		ex.Err = "dial: " + err.Error()
